@@ -385,7 +385,7 @@ fn adversary_fill(co: &CoRc, kind: Kind, q: u16, honest: &[u8]) -> bool {
         3 => 7,
         _ => u32::MAX,
     };
-    let id_fault = deviate(4, "used id of the receive buffer (default: its head)");
+    let id_fault = deviate(5, "used id of the receive buffer (default: its head)");
     if id_fault != 0 {
         // The driver can never attribute this completion: waiting for the request it belongs to
         // is then an unbounded wait, as if the device had never completed it.
@@ -396,7 +396,9 @@ fn adversary_fill(co: &CoRc, kind: Kind, q: u16, honest: &[u8]) -> bool {
         0 => chain.head as u32,
         1 => rq.a.size,
         2 => u32::MAX,
-        _ => (chain.head as u32 + 1) % rq.a.size,
+        3 => (chain.head as u32 + 1) % rq.a.size,
+        // The id of the buffer completed just before (a repeated id).
+        _ => (chain.head as u32 + rq.a.size - 1) % rq.a.size,
     };
     let _ = chain.write_all(&data);
     c.held.get_mut(&q).unwrap().remove(0);
@@ -497,9 +499,14 @@ impl TransportVisitor for VB {
                 call!("recv(peek)", c.recv(false));
                 let mut buf = [0u8; 5];
                 call!("read", c.read(&mut buf));
-                if let Some(Ok(s)) = call!("fill_buf", c.fill_buf().map(|s| (s.as_ptr() as usize, s.len()))) {
+                let mut fb: Option<(usize, usize)> = None;
+                call!("fill_buf", c.fill_buf().map(|s| {
+                    fb = Some((s.as_ptr() as usize, s.len()));
+                    s.len()
+                }));
+                if let Some(s) = fb {
                     if !slice_inside_shared(s.0, s.1) {
-                        viol("slice-exceeds-buffer", format!("fill_buf returned a {}-byte slice at {:#x} outside the receive buffer", s.1, s.0));
+                        viol("slice-exceeds-buffer", format!("fill_buf returned a {}-byte slice outside the receive buffer", s.1));
                     }
                 }
                 call!("send", c.send(b'x'));
@@ -555,12 +562,27 @@ impl TransportVisitor for VB {
                 }));
                 if let Some(rx) = rx_slot {
                     call!("packet_len", rx.packet_len());
-                    if let Some(p) = call!("packet", (rx.packet().as_ptr() as usize, rx.packet().len())) {
+                    let mut pk: Option<(usize, usize)> = None;
+                    call!("packet", {
+                        pk = Some((rx.packet().as_ptr() as usize, rx.packet().len()));
+                        rx.packet().len()
+                    });
+                    if let Some(p) = pk {
                         if p.0 < rx.as_bytes().as_ptr() as usize || p.0 + p.1 > rx.as_bytes().as_ptr() as usize + rx.as_bytes().len() {
-                            viol("slice-exceeds-buffer", format!("RxBuffer::packet() is {} bytes at {:#x}, outside its {}-byte buffer", p.1, p.0, rx.as_bytes().len()));
+                            viol("slice-exceeds-buffer", format!("RxBuffer::packet() is {} bytes, outside its {}-byte buffer", p.1, rx.as_bytes().len()));
                         }
                     }
                     call!("recycle_rx_buffer", n.recycle_rx_buffer(rx));
+                }
+                // A second delivery (possibly naming an id the device already used).
+                adversary_fill(&co, kind, 0, &frame);
+                let mut rx_slot2 = None;
+                call!("receive#2", n.receive().map(|rx| {
+                    rx_slot2 = Some(rx);
+                }));
+                if let Some(rx) = rx_slot2 {
+                    call!("packet_len#2", rx.packet_len());
+                    call!("recycle_rx_buffer#2", n.recycle_rx_buffer(rx));
                 }
                 let tx = n.new_tx_buffer(10);
                 call!("send", n.send(tx));
